@@ -9,6 +9,7 @@ import (
 	"net/http"
 	"strconv"
 	"strings"
+	"sync"
 	"time"
 
 	"github.com/klauspost/compress/flate"
@@ -159,9 +160,12 @@ func wUpgrade(up *gws.Upgrader, ext string) (*gws.Conn, *memConn, error) {
 	if err != nil {
 		return nil, sc, err
 	}
-	if resp := peer.ReadAvailable(); !bytes.HasPrefix(resp, []byte("HTTP/1.1 101")) {
+	resp := peer.ReadAvailable()
+	if !bytes.HasPrefix(resp, []byte("HTTP/1.1 101")) {
 		return nil, sc, fmt.Errorf("no 101: %q", resp)
 	}
+	// what the peer is told about the server's LZ77 window: the bound an RFC 7692 receiver may rely on
+	wAnnounced.Store(c, wAnnouncedBits(string(resp)))
 	sc.mu.Lock()
 	sc.tap, sc.writeCalls = nil, nil
 	sc.mu.Unlock()
@@ -179,6 +183,9 @@ func wConns(c wCfg, optThr int, needB bool) (a *gws.Conn, at *memConn, b *gws.Co
 			opt.PermessageDeflate = gws.PermessageDeflate{Enabled: true, ServerContextTakeover: c.tk, ClientContextTakeover: true,
 				ServerMaxWindowBits: c.bits, ClientMaxWindowBits: 15, Threshold: optThr, PoolSize: 1, Level: c.level}
 			ext = "permessage-deflate; client_max_window_bits"
+			if c.bits > 9 && c.bits%2 == 0 { // some offers ask for a smaller server window than the server is configured with
+				ext += "; server_max_window_bits=9"
+			}
 		}
 		up := gws.NewUpgrader(h, opt)
 		if a, at, err = wUpgrade(up, ext); err != nil {
@@ -209,8 +216,29 @@ func wConns(c wCfg, optThr int, needB bool) (a *gws.Conn, at *memConn, b *gws.Co
 	return
 }
 
+var wAnnounced sync.Map // *gws.Conn -> server_max_window_bits announced in the 101 response (15 if absent, 0 if no extension)
+
+func wAnnouncedBits(resp string) int {
+	for _, line := range strings.Split(resp, "\r\n") {
+		if k, v, ok := strings.Cut(line, ":"); ok && strings.EqualFold(strings.TrimSpace(k), "Sec-WebSocket-Extensions") {
+			bits := 15
+			for _, p := range strings.Split(v, ";") {
+				if name, val, ok := strings.Cut(strings.TrimSpace(p), "="); ok && name == "server_max_window_bits" {
+					bits, _ = strconv.Atoi(strings.Trim(val, "\" "))
+				}
+			}
+			return bits
+		}
+	}
+	return 0
+}
+
 // wCheckSetup compares the negotiated parameters of the connection with the case line.
 func wCheckSetup(c wCfg, conn *gws.Conn) string {
+	if a, ok := wAnnounced.Load(conn); ok && c.pd && c.server && a.(int) != c.bits {
+		// the compressor was built for c.bits; a peer that is told a smaller window drops history the compressor still refers to
+		return fmt.Sprintf("announced-window(%d)-differs-from-compressor-window(%d)", a.(int), c.bits)
+	}
 	pd := gws.VerifPD(conn)
 	if gws.VerifIsServer(conn) != c.server || pd.Enabled != c.pd {
 		return "role/enabled"
